@@ -125,6 +125,62 @@ func mLabels(l labelSet) []string {
 	return out
 }
 
+// segmentLocalFieldID: v derives — through conversions, arithmetic with
+// constants, phis and parameters (all call sites) — from a field id that
+// belongs to one input segment: Dictionary.fieldID or a lookup in a Segment's
+// fieldsMap.  Returns a description of that source, "" when there is none.
+func segmentLocalFieldID(c *Ctx, v ssa.Value, depth int) string {
+	if depth > 6 {
+		return ""
+	}
+	switch x := stripConv(v).(type) {
+	case *ssa.UnOp:
+		if x.Op == token.MUL {
+			if fa, ok := x.X.(*ssa.FieldAddr); ok {
+				owner, f := fieldAddrInfo(fa)
+				if owner != nil && f != nil && owner.Obj().Name() == "Dictionary" && f.Name() == "fieldID" {
+					return "Dictionary.fieldID"
+				}
+			}
+		}
+	case *ssa.BinOp:
+		if s := segmentLocalFieldID(c, x.X, depth+1); s != "" {
+			return s
+		}
+		return segmentLocalFieldID(c, x.Y, depth+1)
+	case *ssa.Extract:
+		return segmentLocalFieldID(c, x.Tuple, depth+1)
+	case *ssa.Lookup:
+		if ld, ok := x.X.(*ssa.UnOp); ok && ld.Op == token.MUL {
+			if fa, ok := ld.X.(*ssa.FieldAddr); ok {
+				owner, f := fieldAddrInfo(fa)
+				if owner != nil && f != nil && owner.Obj().Name() == "Segment" && f.Name() == "fieldsMap" {
+					return "Segment.fieldsMap[…]"
+				}
+			}
+		}
+	case *ssa.Phi:
+		for _, e := range x.Edges {
+			if e == ssa.Value(x) {
+				continue
+			}
+			if s := segmentLocalFieldID(c, e, depth+1); s != "" {
+				return s
+			}
+		}
+	case *ssa.Parameter:
+		fn := x.Parent()
+		for _, site := range c.callsTo(fn) {
+			if a := argFor(site.Common(), x); a != nil {
+				if s := segmentLocalFieldID(c, a, depth+1); s != "" {
+					return s + " (passed at " + c.pos(site.Pos()) + ")"
+				}
+			}
+		}
+	}
+	return ""
+}
+
 // isUvarintDecoder: an in-package helper whose first result is, on a return,
 // the value decoded by binary.Uvarint inside it (`v, n := binary.Uvarint(buf);
 // return v, n, nil`): a call of it is a decode event like binary.Uvarint itself.
@@ -337,6 +393,15 @@ func init() {
 						}
 						if us == "FILE" {
 							continue // checked by STAT-LANES (position in the record)
+						}
+						// merger: persistFields reads the maps with the index of the MERGED
+						// field list, so the key must be that index, never an input
+						// segment's own field id (ids differ when the field sets differ)
+						if c.entries().MERGE[topFn(fn)] {
+							if src := segmentLocalFieldID(c, mu.Key, 0); src != "" {
+								r.bad(key, fnName(fn), c.pos(mu.Pos()), lane+"-lane statistic of the merged segment is keyed by "+src+", an input segment's own field id; persistFields reads it with the merged field index")
+								continue
+							}
 						}
 						r.ok(key, fnName(fn), c.pos(mu.Pos()), lane+"-lane update adds "+us)
 					}
